@@ -434,9 +434,9 @@ class Fitter:
         content: Fragment | None = None,
     ) -> None:
         top = self.frontier[self.depth]
-        top_match = top.match.match_type(type_)
-        assert top_match is not None
-        top.match = top_match
+        # The parent may not accept type_ here when re-opening the nodes along the end
+        # position; its match is not consulted again in that case, so tolerate None.
+        top.match = top.match.match_type(type_) if top.match else None  # type: ignore[assignment]
         self.placed = add_to_fragment(
             self.placed,
             self.depth,
